@@ -242,6 +242,27 @@ def leafBack (c : Ir.Const) : Option Ir.Const :=
   | .ok (.un .Minus (.lit l)) => (negConst (rereadConst l)).bind (retagTo (constScalar c))
   | _ => none
 
+/-! ## statements with an expression (the three forms of the C03 statement model) -/
+
+/-- C03 counterpart of an expression statement, `return e` / `return`, or a definition with an initialiser -/
+def eraseStmt (ix : Idx) (vty : Ir.Var → Ir.Ty) : Ir.Stmt → Option IStmt
+  | .expr e => (erase ix e).map .expr
+  | .ret none => some (.ret none)
+  | .ret (some e) => (erase ix e).map fun i => .ret (some i)
+  | .var id (some e) => (erase ix e).map (.init (eraseTy (vty (.loc id))))
+  | _ => none
+
+/-- the front end reading the exported statement (`generate_statement` output) -/
+def readBackStmt (nm : Names) : HlslAst.Stmt → Option SStmt
+  | .expr a => (readBack nm a).map .expr
+  | .ret none => some (.ret none)
+  | .ret (some a) => (readBack nm a).map fun s => .ret (some s)
+  | .var tn _ (some a) =>
+    match tyOfName tn, readBack nm a with
+    | some t, some s => some (.init t s)
+    | _, _ => none
+  | _ => none
+
 /-- the second-generation elaboration of one expression position: the exported tree is read back, elaborated by
     `parse_expr` and converted to the type the position requires (`ctx`: the variable's type for an initialiser, the
     return type for `return`; conditions and expression statements are not converted) -/
